@@ -44,6 +44,8 @@ def check_param(rep, func, ctx, name, val, where):
 
 def check_roles(rep, func, ctx, itp, nfft_aff, seen, where):
     """fft lengths and buffer stores observed during the abstract run"""
+    store_mid = {id(e_[1]): e_[2] for e_ in itp.events if e_[0] == 'store-mid'}
+    fft_mids = {getattr(e_[6], 'mid', None) for e_ in itp.events if e_[0] == 'fft' and e_[6] is not None} - {None}
     n = 0
     for ev in itp.events:
         if ev[0] == 'fft':
@@ -76,6 +78,9 @@ def check_roles(rep, func, ctx, itp, nfft_aff, seen, where):
             _k, node, bshape, vt, it_, fq = ev
             if bshape is None or len(bshape) != 1 or bshape[0] is None or bshape[0] != nfft_aff:
                 continue
+            mid_ = store_mid.get(id(node))
+            if mid_ is not None and mid_ not in fft_mids:
+                continue            # an NFFT-long buffer that never reaches a transform (an output being assembled)
             key = ('store', fq, normalise(node))
             n += 1
             ok = SRC not in vt
@@ -103,9 +108,11 @@ def run(prog, rep, tier='quick'):
     rep.rule('param-independent', 'dependence set (data+control, exception-insensitive) of each model-parameter sink excludes NFFT')
     rep.rule('role-fft-length', 'length argument of each (r)fft reached with an NFFT-dependent length equals NFFT')
     rep.rule('role-buffer-content', 'values stored into a buffer of length NFFT do not depend on NFFT')
+    rep.rule('grid-independent-fold', 'per class and data kind: the weight of bin 0 in the stored PSD (index map) is the same for even and odd NFFT')
     rep.rule('role-no-numeric-NFFT', 'unscaled PSD has NFFT exponent 0 as a number')
     rep.assumptions += ['fft(a, n) zero-pads when n >= len(a) (admissible NFFT)', 'exception-insensitive dependence']
     seen = set()
+    dc_weight = {}
     classes = psd_classes(prog)
     nsink = nrole = nrun = 0
     for cls in classes:
@@ -130,6 +137,21 @@ def run(prog, rep, tier='quick'):
                 if psd is not None and isinstance(nf, IntV) and nf.a == kw['NFFT'].a:
                     report_conflicts(rep, 'role-no-numeric-NFFT', itp, ('nfft', 'index'), '%s,%s' % (cls.name, label), seen)
                     check_sink(rep, 'role-no-numeric-NFFT', cls.qname, label, 'psd', psd, {'nfft': F(0)}, where)
+                    sg_ = getattr(psd, 'seg', None)
+                    if sg_:
+                        from .. import segmap as _S
+                        first_ = _S.normalise(sg_)[0]
+                        dc_weight.setdefault((cls.qname, cplx), {})[parity] = (first_.w, where)
+    # the weight the fold puts on the zero-frequency bin is the same on every grid: f = 0 belongs to all of them
+    for (cq, cplx_), per in sorted(dc_weight.items()):
+        if len(per) == 2:
+            (we, wh), (wo, _w) = per['even'], per['odd']
+            lab_ = 'zero-frequency bin, %s' % ('complex' if cplx_ else 'real')
+            if we == wo:
+                rep.proved('grid-independent-fold', cq, lab_, 'weight %s for even and odd NFFT' % we, wh)
+            else:
+                rep.violation('grid-independent-fold', cq, lab_, 'the estimate at f = 0 carries weight %s when NFFT is even and %s when it is '
+                              'odd: two admissible grids disagree at a frequency they share' % (we, wo), wh)
     # functional estimators that take NFFT
     P = lambda: C.symint('P', 2, 'order')
     FUN = [
